@@ -136,6 +136,26 @@ fn run(a: &[String]) {
                 _ => panic!("bad op"),
             }
         }
+        // raw update|touchins <from> <to> ; raw touch <path>
+        "raw" => {
+            marker("begin");
+            let r = match a[2].as_str() {
+                "update" => kismet_cache::raw_cache::insert_or_update(&a[3], &a[4]).map(|_| String::new()),
+                "touchins" => kismet_cache::raw_cache::insert_or_touch(&a[3], &a[4]).map(|_| String::new()),
+                "touch" => kismet_cache::raw_cache::touch(&a[3]).map(|b| b.to_string()),
+                _ => panic!("bad raw op"),
+            };
+            marker("end");
+            match r {
+                Ok(v) => {
+                    println!("result ok");
+                    if !v.is_empty() {
+                        println!("value {}", v);
+                    }
+                }
+                Err(e) => describe_err(&e),
+            }
+        }
         // prune <dir> <capacity>
         "prune" => {
             marker("begin");
@@ -227,6 +247,16 @@ fn run(a: &[String]) {
                         if pop == "!error" {
                             dst.write_all(b"partial")?;
                             return Err(std::io::Error::new(std::io::ErrorKind::Other, "populate failed"));
+                        }
+                        // peerput:<plain dir>:<peer value>:<own value>  - another participant publishes the
+                        // key (plain put) while this populate is running: a deterministic interleaving
+                        if let Some(rest) = pop.strip_prefix("peerput:") {
+                            let p: Vec<&str> = rest.split(':').collect();
+                            let peer = kismet_cache::plain::Cache::new(PathBuf::from(p[0]), usize::MAX);
+                            let mut t = tempfile::NamedTempFile::new_in(peer.temp_dir().unwrap()).unwrap();
+                            t.as_file_mut().write_all(p[1].as_bytes()).unwrap();
+                            peer.put(&a[7], t.path()).unwrap();
+                            return dst.write_all(p[2].as_bytes());
                         }
                         dst.write_all(pop.as_bytes())
                     };
